@@ -268,6 +268,9 @@ pub fn kind_strategy() -> impl Strategy<Value = u32> {
         // custom types that look like a specified one in their lower half-word / byte
         1 => (0u32..=21, 1u32..=0xFFFF).prop_map(|(k, h)| k | h << 16),
         1 => (0u32..=21, 1u32..=0xFF_FFFF).prop_map(|(k, h)| k | h << 8),
+        // type words that mean something elsewhere: both magics (also byte-swapped),
+        // all-ones, the high bit, an ASCII signature
+        1 => proptest::sample::select(vec![0xE852_50D6u32, 0x36D7_6289, 0xD650_52E8, 0x8962_D736, 0xFFFF_FFFF, 0x8000_0000, 0x2044_5352, 0x464C_457F]),
     ]
 }
 
@@ -312,7 +315,19 @@ pub fn mbi_spec(max_tags: usize, max_tweaks: usize) -> impl Strategy<Value = Mbi
             1 => (0u8..24).prop_map(TsTweak::Tiny),
         ],
     )
-        .prop_map(|(tags, end, pad, reserved, ts)| MbiSpec { tags, end, pad, reserved, ts })
+        .prop_map(|(mut tags, end, pad, reserved, ts)| {
+            // tags whose presence changes how another kind is served: an EFI memory
+            // map (17) is withheld while a boot-services tag (18) is present - put
+            // one beside every second map, before or behind it
+            if let Some(i) = tags.iter().position(|t| t.kind == 17) {
+                let k = tags[i].key;
+                if k & 0x100 != 0 && !tags.iter().any(|t| t.kind == 18) {
+                    let at = if k & 0x200 != 0 { 0 } else { tags.len() };
+                    tags.insert(at, TagSpec { kind: 18, n: 0, sel: 0, key: k, tweaks: Vec::new(), extra: Vec::new() });
+                }
+            }
+            MbiSpec { tags, end, pad, reserved, ts }
+        })
 }
 
 // ---------------------------------------------------------------------------
